@@ -24,8 +24,9 @@ RULES = {
     "R5": "the winner is looked up among the allowed ids: ids[mask][scores[mask].argmin()] with mask = isin(ids, allowed)",
     "R6": "the derived screen attributes this property's code relies on (is_observed, n_unique_samples, unique_sample_ids) have their documented definitions in ScreenBase and every override",
     "R7": "the view algebra this property's code relies on: plates = one view per unique plate id, get_plate = the rows with that id, subset_(un)observed, combine / concat as unions over one parent (C14.R3 run here)",
+    "R8": "constructor options are live: every attribute the constructor binds from a parameter is read by a method of the class",
 }
-MIN = {"R1": 1, "R2": 1, "R3": 7, "R4": 2, "R5": 2, "R6": 3, "R7": 8}
+MIN = {"R1": 1, "R2": 1, "R3": 7, "R4": 2, "R5": 2, "R6": 3, "R7": 8, "R8": 1}
 TRUSTED = ["python dict/defaultdict semantics", "Plate.sample_ids[0] is the plate's sample once R1 holds"]
 TECHNIQUE = "guard dominance on the CFG, counter-idiom recognition, integer relational normal forms of the thresholds"
 LEVEL_TEXT = ("Decides the filter's one-step contract (who may be returned, under which integer thresholds) for all k and "
@@ -414,7 +415,11 @@ def r_views(ctx):
     ctx.borrow(C14.r3, "R7")
 
 
-RULE_FUNCS = [r1, r2, r3, r3_deviant, r4, r5, r_derived, r_views]
+def r_options(ctx):
+    common.options_are_live(ctx, "R8", ["batchie.policies.k_per_sample.KPerSamplePlatePolicy"], exempt=())
+
+
+RULE_FUNCS = [r1, r2, r3, r3_deviant, r4, r5, r_derived, r_views, r_options]
 
 
 def run(ctx):
